@@ -19,12 +19,13 @@ healthy / noext / misuse (0..3 external × 0..2 internal extensions, every subsc
 arrival orders, directories in the extensions directory), judged by the model and by the
 model-free monitor `mon_init_barrier` (log order only).
 
-Proved here: the guards of each orchestrator step and the single-arrival facts about the agent
-programs. The composition "arrived = count ⇒ every launched extension has registered" over whole
-runs (an inductive invariant relating the gate's `arrived` to the number of agents past `Started`)
-is argued from these lemmas but not yet mechanised as one theorem — `C03_runtime_after_registered`
-is therefore labelled partial; the whole-run statement is checked on the real stack by
-`mon_init_barrier` and by the step-by-step correspondence.
+Proved here: the guards of each orchestrator step, the single-arrival facts about the agent
+programs, and BOTH barriers as whole-run invariants: `C03_runtime_after_registered` (the runtime
+object exists only when every launched extension has registered — `Rie.Sys.BInv`) and
+`C03_init_done_after_everyone_asked` (the init is done, hence the first invocation dispatched, only
+when every agent's first `next` has been counted by the agents-ready gate — `Rie.Sys.B2Inv`, with
+the ghost bit `Agent.asked`). Liveness ("if all parties do arrive initialisation completes") is not
+a theorem: on the real stack it is the rule of `mon_init_barrier` that exposed finding F14.
 -/
 namespace Rie.Props.C03
 open Rie.Sys Rie.SM
